@@ -17,7 +17,10 @@ Files == <<
   [apps |-> <<P(4, "auth")>>, avps |-> <<A(4, 5001, "X-A", 0, "UTF8String"), A(4, 5002, "X-B", 20, "Unsigned32")>>, cmds |-> <<>>],
   [apps |-> <<P(16777251, "auth")>>, avps |-> <<A(16777251, 5001, "X-C", 10, "Time")>>, cmds |-> <<C(16777251, 601, "XB")>>],
   [apps |-> <<P(0, ""), P(77, "acct")>>, avps |-> <<A(0, 5001, "X-A", 0, "OctetString"), A(77, 5002, "X-B", 0, "Address")>>, cmds |-> <<>>],
-  [apps |-> <<P(4, "acct"), P(1, "auth")>>, avps |-> <<A(4, 5003, "X-D", 0, "Unsigned32"), A(1, 5002, "X-B", 10, "Float32")>>, cmds |-> <<C(1, 602, "XC")>>] >>
+  [apps |-> <<P(4, "acct"), P(1, "auth")>>, avps |-> <<A(4, 5003, "X-D", 0, "Unsigned32"), A(1, 5002, "X-B", 10, "Float32")>>, cmds |-> <<C(1, 602, "XC")>>],
+  \* a corrected vendor dictionary: the vendor-specific X-B of base redefined (same application, code, name and
+  \* vendor, another type), and the same code under a second vendor
+  [apps |-> <<P(0, "")>>, avps |-> <<A(0, 5002, "X-B", 10, "Unsigned64"), A(0, 5002, "X-E", 20, "Integer32")>>, cmds |-> <<>>] >>
 Defs(ld) == FlattenSeq([i \in 1..Len(ld) |-> Files[ld[i]].avps])
 Cmds(ld) == FlattenSeq([i \in 1..Len(ld) |-> Files[ld[i]].cmds])
 Apps(ld) == FlattenSeq([i \in 1..Len(ld) |-> Files[ld[i]].apps])
